@@ -222,7 +222,9 @@ func (ri *RedisInput) syncMeta(ctx context.Context, redisCli *redis.StandaloneRe
 		// 2. output.offset < channel.left and channel.hasRdb :
 		// outSp not in locSp :
 		// 3. channel.right < output.offset :
-		if ri.channel.IsValidOffset(Offset{RunId: locSp.RunId, Offset: outSp.Offset}) {
+		// outSp not on locSp's history for sure :
+		// 4. output and channel are under different run ids, only the source can tell (psync with output's id)
+		if outSp.RunId == locSp.RunId && ri.channel.IsValidOffset(Offset{RunId: locSp.RunId, Offset: outSp.Offset}) {
 			sOffset, isFullSync, rdbSize, err = ri.pSync(redisCli, locSp.ToOffset())
 			if err != nil {
 				return
